@@ -24,6 +24,10 @@ Fixpoint pipe_step (ps : list pp) (l : line) : list pp * line :=
   end.
 
 Definition write_builtin (ps : list pp) (chunks : list str) : list pp * str :=
+  write_rj pipe_step chunks ps.
+
+(* the buffering loop WITHOUT the rejoin stage (the code before fix 982f275); kept to document why the stage is needed *)
+Definition write_builtin_raw (ps : list pp) (chunks : list str) : list pp * str :=
   write pipe_step chunks ps.
 
 (* the stream of (possibly elided) lines the limiter returns for a stream of input lines *)
